@@ -244,6 +244,9 @@ func c10CCM(t *testing.T, r *c10Rand, out *c10Out, withCID bool) {
 		t.Fatal(err)
 	}
 	c10AESRecord(t, out, "CCM.Encrypt", rec, iv, got, oracle, int(tagLen))
+	// the whole record, computed by the model alone (AES + CCM + layout)
+	out.emit(32, 0, "CCM.Encrypt (whole record)", [][]byte{key, iv, rec.cid, rec.payload},
+		rec.nums(int(tagLen)), [][]byte{got})
 	c10RoundTrip(t, "CCM", key, iv, rec, got, func(k, v []byte) (c10Dec, error) { return NewCCM(tagLen, k, v, k, v) })
 }
 
@@ -341,6 +344,9 @@ func c10CBC(t *testing.T, r *c10Rand, out *c10Out, withCID bool) {
 		out.emit(25, h.code, "CBC.hmac", [][]byte{macKey, rec.payload}, rec.nums(), [][]byte{mac})
 		out.emit(24, h.code, "CBC.Encrypt", [][]byte{macKey, rec.payload, nil}, rec.nums(),
 			[][]byte{plain, got[:hsz]})
+		// the whole record given the explicit IV the library drew, computed by the model alone
+		out.emit(33, h.code, "CBC.Encrypt (whole record)", [][]byte{key, macKey, body[:16], rec.payload},
+			rec.nums(), [][]byte{got})
 
 		return
 	}
@@ -362,6 +368,8 @@ func c10CBC(t *testing.T, r *c10Rand, out *c10Out, withCID bool) {
 	out.emit(28, h.code, tagRFC, [][]byte{macKey, rec.payload, rec.cid}, cidNums, [][]byte{plain, got[:hsz]})
 	out.emit(29, h.code, "CBC.Encrypt cid (as coded)", [][]byte{macKey, rec.payload, rec.cid}, cidNums,
 		[][]byte{plain, got[:hsz]})
+	out.emit(34, h.code, "CBC.Encrypt cid (whole record, MAC as coded)",
+		[][]byte{key, macKey, body[:16], rec.cid, rec.payload}, cidNums, [][]byte{got})
 
 	// a record built exactly as RFC 9146 section 5.1 prescribes (MAC input emitted and compared
 	// with the model) must be accepted by Decrypt
@@ -396,4 +404,48 @@ func c10CBC(t *testing.T, r *c10Rand, out *c10Out, withCID bool) {
 	}
 	out.emit(30, h.code, tagRFC, [][]byte{macKey, rec.payload, rec.cid}, cidNums, [][]byte{in, pt, accepted})
 	out.note = ""
+}
+
+// TestVerifC10CCMMode compares pion's own CCM mode (pkg/crypto/ccm, over the stdlib AES block) and
+// the stdlib AES block itself with the model's RFC 3610 / FIPS 197 implementation, for every
+// nonce length 7..13 and tag length 4..16.
+func TestVerifC10CCMMode(t *testing.T) {
+	r := &c10Rand{s: c10Seed() ^ 0xc10cc}
+	out := newC10Out(t)
+	n := 60
+	if c10Thorough() {
+		n = 3000
+	}
+	for i := 0; i < n; i++ {
+		key := r.bytes(16 + 8*r.intn(3))
+		blk, err := aes.NewCipher(key)
+		if err != nil {
+			t.Fatal(err)
+		}
+		b := r.bytes(16)
+		enc := make([]byte, 16)
+		blk.Encrypt(enc, b)
+		out.emit(35, 0, "aes.Encrypt (stdlib oracle)", [][]byte{key, b}, nil, [][]byte{enc})
+
+		tagLen := 4 + 2*r.intn(7)
+		nonceLen := 7 + r.intn(7)
+		if i%3 == 0 {
+			tagLen, nonceLen = 8+8*r.intn(2), 12 // the DTLS parameters
+		}
+		c, err := ccm.NewCCM(blk, tagLen, nonceLen)
+		if err != nil {
+			t.Fatal(err)
+		}
+		nonce := r.bytes(nonceLen)
+		msg := r.bytes(r.intn(50))
+		var ad []byte
+		if r.intn(4) != 0 {
+			ad = r.bytes(1 + r.intn(40))
+		}
+		sealed := c.Seal(nil, nonce, msg, ad)
+		out.emit(31, 0, "ccm.Seal", [][]byte{key, nonce, msg, ad}, c10U(tagLen), [][]byte{sealed})
+		if opened, err := c.Open(nil, nonce, sealed, ad); err != nil || !bytes.Equal(opened, msg) {
+			t.Fatalf("ccm does not open its own output: %v", err)
+		}
+	}
 }
